@@ -343,7 +343,31 @@ const ALT_ITEMS: &[&str] = &[
     "struct X {}",
     "enum E {}",
     "trait Alias = Clone;",
+    // what rustc hands an attribute macro placed on a trait / impl / foreign item
+    "fn f();",
+    "fn f(&self);",
+    "fn f(&self) {}",
+    "fn f(self: Box<Self>) -> Self;",
+    "type A;",
+    "type A: Clone;",
+    "type A<T>: Clone where T: Copy;",
+    "const C: u8;",
+    "static S: u8;",
+    "static mut S: u8;",
+    "pub(self) fn f<T>(&mut self, t: T) where T: Copy;",
+    "struct X<T>(T) where T: Copy;",
+    "enum E { A = 1, B = 2 }",
+    "union U {}",
+    "impl Trait for X {}",
+    "impl<T> X<T> { const C: u8 = 0; }",
+    "impl const Add for X { type Output = X; }",
+    "impl<T> !Add for X<T> {}",
+    "macro m() {}",
+    "pub macro m($a:expr) { $a }",
 ];
+pub fn alt_items() -> &'static [&'static str] {
+    ALT_ITEMS
+}
 
 fn ps<T: syn::parse::Parse>(s: &str) -> Option<T> {
     syn::parse_str(s).ok()
